@@ -33,7 +33,7 @@ async def scenario():
     peer_channels[0].write(bytes(att.ATT_Read_Request(attribute_handle=value_handle)))
     await asyncio.sleep(0.3)
     print('replies:', [r.hex() for r in replies])
-    return len(replies) == 1 and replies[0] == bytes([att.ATT_READ_RESPONSE]) + b'hello'
+    return len(replies) == 1 and replies[0] == bytes(att.ATT_Read_Response(attribute_value=b'hello'))
 
 
 async def main():
